@@ -366,6 +366,41 @@ impl Oracle {
         })
     }
 
+    /// Known finding C01:unicode-word-boundary-next-to-invalid-utf8, as a
+    /// predicate on (pattern, input): the pattern has a Unicode word boundary,
+    /// the input is not valid UTF-8, and for some line the reference regex
+    /// answers differently (match or not, or where) when it sees the line
+    /// alone than when it sees it inside the input.
+    pub fn word_boundary_context_dependent(
+        &self,
+        patterns: &[String],
+        f: &PatFlags,
+        input: &[u8],
+    ) -> bool {
+        if std::str::from_utf8(input).is_ok() {
+            return false;
+        }
+        let uw = matcher_builder(f)
+            .verif_describe(patterns)
+            .map(|(h, _)| h.properties().look_set().contains_word_unicode())
+            .unwrap_or(false);
+        if !uw {
+            return false;
+        }
+        for l in crate::model::split_lines(input, self.term) {
+            let content = &input[l.start..l.content_end];
+            let alone = self.re.search(&Input::new(content)).map(|m| m.range());
+            let in_ctx = self
+                .re
+                .search(&Input::new(input).span(l.start..l.content_end))
+                .map(|m| (m.start() - l.start)..(m.end() - l.start));
+            if alone != in_ctx {
+                return true;
+            }
+        }
+        false
+    }
+
     /// Do the optimised engine (meta::Regex) and the plain NFA simulation
     /// give different successive matches somewhere in `haystack`, searched
     /// as a whole and line by line? Then the *regex library* is inconsistent
